@@ -210,6 +210,24 @@ def report_quality(rep, qb, what):
     elif valid and want_err is not None and ((r.get('chosen') is None) != want_err) and r == r2:
         rep.violation('C11:quality:value', f'Accept "{txt}": {what}; native {r}', {'op': op, 'native': r})
     else:
+        # differential probe: the quality of q must lie strictly between those of its neighbours (q - 0.001, q + 0.001); the range
+        # listed second has to win whenever its weight is higher
+        if valid:
+            v = round(float(qb.decode()) * 1000)
+            fmt = lambda n: '1' if n >= 1000 else '0.%03d' % n
+            probes = []
+            if v >= 1:
+                probes.append(['application/x-jackson-smile;q=' + fmt(v - 1), 'application/json;q=' + qb.decode()])
+            if 1 <= v < 1000:
+                probes.append(['application/x-jackson-smile;q=' + qb.decode(), 'application/json;q=' + fmt(v + 1)])
+            ops = [{'op': 'negotiate', 'accept': a, 'order': ['json', 'smile']} for a in probes]
+            if ops:
+                rs, rs2 = replay(ops), replay(ops, 'release')
+                rep.replayed += len(ops)
+                for o, a, b in zip(ops, rs, rs2):
+                    if a.get('chosen') != 'application/json' and b.get('chosen') != 'application/json':
+                        rep.violation('C11:quality:order', f'Accept {o["accept"]}: the range with the higher weight is listed second and must win, native {a}; {what}', {'op': o, 'native': a})
+                        return
         rep.inconc(f'model mismatch C11 quality: q={qb!r} {what} does not reproduce natively: {r}')
 
 
